@@ -653,6 +653,20 @@ func altEncodings(c *explore.Ctx) {
 		if ds := pgen.Diffs(v, out.Elem()); len(ds) > 0 {
 			c.Fail("Unmarshal:wrong-value:"+p.String()+":"+a.name+":"+typeSet(ast), "Unmarshal of the %s encoding % x of %s differs at %s: %s", a.name, trunc(a.b), desc, ds[0].Path, ds[0].Why)
 		}
+		// a conformant encoding is no type mismatch: a strict Decoder accepts it too
+		{
+			st := reflect.New(s.Type)
+			var serr error
+			d := thrift.NewDecoder(impl(p).NewReader(bytes.NewReader(a.b)))
+			d.SetStrict(true)
+			if pv, ps := explore.Catch(func() { serr = d.Decode(st.Interface()) }); pv != nil {
+				c.Fail("Decoder:panic:"+ps+":"+explore.PanicClass(pv), "strict Decoder panicked: %v on %s encoding % x of %s", pv, a.name, trunc(a.b), desc)
+			} else if serr != nil {
+				c.Fail("Decoder:strict-rejects-conformant:"+p.String()+":"+a.name+":"+typeSet(ast), "a strict Decoder rejects the %s encoding % x of %s: %v", a.name, trunc(a.b), desc, serr)
+			} else if ds := pgen.Diffs(v, st.Elem()); len(ds) > 0 {
+				c.Fail("Decoder:strict-wrong-value:"+p.String()+":"+a.name+":"+typeSet(ast), "a strict Decoder decodes the %s encoding % x of %s differently at %s: %s", a.name, trunc(a.b), desc, ds[0].Path, ds[0].Why)
+			}
+		}
 		// the same bytes through a Decoder on a bufio.Reader with a small buffer, fed in small packets: a
 		// fixed-width value then straddles what is buffered (the first two encodings of each case)
 		if ai < 2 {
@@ -804,7 +818,7 @@ func Spec() *explore.Spec {
 			{Name: "marshal-bytes", ShardDepth: 2, Body: marshalBytes, Bound: func(string) int { return 1 }, Doc: "struct types (1-2 fields, C04 palette) x id layouts x values x 3 protocols: Marshal bytes equal the specification model's bytes (decoded content for multi-entry maps/sets); about every 4th call follows a Marshal call that failed after part of its value had been written"},
 			{Name: "writer-kinds", ShardDepth: 2, Body: writerKinds, Doc: "every Writer call of the alphabet (after one of 12 earlier calls) x 3 protocols on three other kinds of io.Writer than bytes.Buffer (nothing but Write; an io.ByteWriter / io.StringWriter of an unknown type; a 16-byte bufio.Writer): the bytes that reach the writer equal the specification model's"},
 			{Name: "writer-calls", ShardDepth: 2, Body: writerCalls, Doc: "every sequence of up to 2 (3 thorough) Writer calls over an alphabet of ~330 calls with boundary arguments x 3 protocols, byte-for-byte against the model"},
-			{Name: "alt-encodings", ShardDepth: 2, Body: altEncodings, Bound: func(string) int { return 1 }, Doc: "every conformant alternative encoding (field order permutations; compact: long field headers, long list headers, non-minimal varints, bool element type 1, combined) is accepted by Unmarshal, and by a Decoder over a 16-byte bufio.Reader fed in small packets, with the same value"},
+			{Name: "alt-encodings", ShardDepth: 2, Body: altEncodings, Bound: func(string) int { return 1 }, Doc: "every conformant alternative encoding (field order permutations; compact: long field headers, long list headers, non-minimal varints, bool element type 1, combined) is accepted by Unmarshal, by a strict Decoder, and by a Decoder over a 16-byte bufio.Reader fed in small packets, with the same value"},
 			{Name: "readers", ShardDepth: 2, Body: readers, Doc: "ReadMessage / ReadField / ReadList / ReadMap on specification-encoded headers incl. long forms"},
 		},
 		Rule: "every (type, layout, value, protocol) and every call sequence within the bounds; the model's encoder/decoder are checked inverse on every struct explored (model_selfcheck counter)",
